@@ -225,6 +225,7 @@ Proof.
   - (* call *)
     destruct (live_inst w i) as [it|] eqn:Hl; [|cbn; lia]. apply live_inst_nth in Hl as [Hn _].
     destruct (matcher_panics (w_cfg w) (w_state w) m a) as [sp|]; [cbn [fst]; unfold originals, set_state; cbn [w_insts]; lia|].
+    destruct (debug_panics (w_cfg w) (w_state w) m a) as [sd|]; [cbn [fst]; unfold originals, set_state; cbn [w_insts]; lia|].
     destruct (call _ _ _ _ _ _ _ _) as [s' act]. cbn [fst]. unfold after_call, originals.
     destruct act; cbn; try lia; rewrite (Hupd _ i it); try lia; try assumption; reflexivity.
   - (* clone *)
@@ -255,6 +256,8 @@ Proof.
   - (* callown *)
     destruct (live_inst w i) as [it|] eqn:Hl; [|cbn; lia]. apply live_inst_nth in Hl as [Hn _].
     destruct (matcher_panics (w_cfg w) (w_state w) m a) as [sp|].
+    { cbn [fst]. unfold originals, kill, set_insts, set_state. cbn [w_insts]. rewrite (filter_upd_dead _ i it Hn). lia. }
+    destruct (debug_panics (w_cfg w) (w_state w) m a) as [sd|].
     { cbn [fst]. unfold originals, kill, set_insts, set_state. cbn [w_insts]. rewrite (filter_upd_dead _ i it Hn). lia. }
     destruct (call _ _ _ _ _ _ _ _) as [s' act].
     set (w1 := after_call w i it s' act).
